@@ -10,6 +10,7 @@ import CfVerif.Proofs.C09Link
 import CfVerif.Proofs.C09Layout
 import CfVerif.Proofs.C09Exact
 import CfVerif.Proofs.C09Resid
+import CfVerif.Proofs.C09Avg
 namespace CfVerif.C09
 open CfVerif
 
@@ -133,6 +134,14 @@ theorem gen_residual_numerics :
     (∀ e ∈ ["result[i * 2] = vector.lh_v1_horiz_angle", "result[i * 2 + 1] = vector.lh_v1_vert_angle"], e ∈ Gen.C09.angleListAssigns) ∧
     Gen.C09.poseRotateTranslateReturns = ["return np.dot(self.rot_matrix, point) + self.translation"] ∧
     Gen.C09.poseInvRotateTranslateReturns = ["return np.dot(np.transpose(self.rot_matrix), point - self.translation)"] := by decide
+
+set_option maxRecDepth 20000 in
+theorem gen_averaging :
+    Gen.C09.avgEigFunc = "np.linalg.eigh" ∧ Gen.C09.avgEigArg = "Q.T @ Q" ∧
+    Gen.C09.avgReturns = ["return eigvecs[:, eigvals.argmax()]", "return Pose.from_quat(R_quat=average_quaternion, t_vec=average_pos)"] ∧
+    (∀ e ∈ ["eigvals, eigvecs = np.linalg.eigh(Q.T @ Q)", "quats = map(lambda x: x.rot_quat, poses)",
+        "average_quaternion = q_average(np.array(list(quats)))", "positions = map(lambda x: x.translation, poses)",
+        "average_pos = np.average(np.array(list(positions)), axis=0)"], e ∈ Gen.C09.avgAssigns) := by decide
 
 /-! ## T1 — sample matcher -/
 
@@ -357,6 +366,16 @@ theorem estimate_exact_on_consistent_data (ops : PoseOps P) (rel : P → P → P
           refine ⟨hgd, ?_⟩
           have := estimateCfPoses_good ops rel laws B X bsPoses hgd _ 0 hn (by simpa using hgs) cfPoses hc
           simpa using this
+
+/-- **The quaternion average does not depend on the sign each quaternion is written with.**  `q` and `−q` are the
+same rotation and scipy's `as_quat()` returns either; `_avarage_poses` takes the dominant eigenvector of
+`Q.T @ Q = Σ qᵢqᵢᵀ` (`gen_averaging` pins that route), and that matrix is unchanged when any subset of the rows is
+negated — so, whatever the eigen-solver computes from it, estimates of one pose cannot cancel each other. -/
+theorem average_sign_invariant {α : Type} [Ring α] (domEig : List (List α) → List α) (qs : List (Bool × List α)) :
+    gram 4 (qs.map fun p => flipSign p.1 p.2) = gram 4 (qs.map fun p => p.2) ∧
+    qAverage domEig (qs.map fun p => flipSign p.1 p.2) = qAverage domEig (qs.map fun p => p.2) := by
+  have h := gram_flipSign 4 qs
+  exact ⟨h, by simp only [qAverage, h]⟩
 
 end T2
 
@@ -687,6 +706,7 @@ example : PoseLaws (P := Int) ⟨fun g c u => g - c + u, fun g c => g - c, fun l
 /-- `TrigLaws` is satisfiable (a degenerate instance over ℚ; the real functions satisfy the same five facts) -/
 example : TrigLaws (α := ℚ) ⟨fun _ => 0, fun _ => 1, fun _ => 0, fun _ _ => 0, fun a => a, fun a => decide (a = 0)⟩ :=
   ⟨fun _ => rfl, rfl, fun a => by simp, rfl, rfl⟩
+example : gram 4 ([[1, 2, 3, 4], [-1, -2, -3, -4]] : List (List Int)) = gram 4 [[1, 2, 3, 4], [1, 2, 3, 4]] := by decide
 example : PickValid (fun l => l.headD 0) := by
   intro l hl; cases l with
   | nil => exact absurd rfl hl
